@@ -49,19 +49,24 @@ def l3_frozen_marginal(chk, ctx, rng, n):
             for (i, j) in list(ms):
                 if i == k or j == k: ms[(i, j)] = 0.0
         if all(fr): fr[int(rng.integers(d))] = False
-        varying = bool(it % 2)
+        varying = bool((it // 4) % 2)          # independent of d (= 2 + it % 4)
+        delj = bool((it // 8) % 2)             # the Chang-Cooper option: both the C kernels and the pre-computed Python coefficients
         T = float(rng.uniform(0.01, 0.1))
         kw = kwargs_for(d, nus, ms, gammas, hs, th, fr, nm)
         if varying:
             free = [i for i in range(d) if not fr[i]][0]
             kw['nu%d' % (free + 1)] = (lambda t, v=nus[free]: v * (1 + 0.5 * math.sin(30 * t)))
-        key = 'frozen-marginal:%dD:varying=%s' % (d, varying)
+        key = 'frozen-marginal:%dD:varying=%s:delj=%s' % (d, varying, delj)
         chk.l3((key, tuple(fr)))
-        inp = dict(d=d, pts=pts, frozen=fr, nomut=nm, nus=nus, ms=str(ms), gammas=gammas, hs=hs, theta0=th, T=T, varying=varying, phi=phi if phi.size < 400 else None)
+        inp = dict(d=d, pts=pts, frozen=fr, nomut=nm, nus=nus, ms=str(ms), gammas=gammas, hs=hs, theta0=th, T=T, varying=varying, use_delj_trick=delj, phi=phi if phi.size < 400 else None)
+        old_delj = dadi.Integration.use_delj_trick
+        dadi.Integration.use_delj_trick = delj
         try:
             out = integrate(dadi, d, phi, xx, T, **kw)       # passed as it is (possibly a transposed view); must not be modified
         except Exception as e:
             chk.fail(key + ':raises:' + type(e).__name__, 'integrator raises %r' % (e,), inp); continue
+        finally:
+            dadi.Integration.use_delj_trick = old_delj
         for k in range(d):
             if not fr[k]: continue
             m0 = marginal(phi, xx, [k]); m1 = marginal(out, xx, [k])
@@ -86,7 +91,7 @@ def l3_isolated_marginal(chk, ctx, rng, n):
             fr = [bool(rng.random() < 0.15) for _ in range(d)]
             if all(fr): fr[0] = False
             th = float(rng.uniform(0.3, 3))
-            varying = bool(it % 2)
+            varying = bool((it // 4) % 2)      # independent of d (= 2 + it % 4)
             T = float(rng.uniform(2, 6)) * 0.1 * (xx[1] - xx[0])
             size = int(rng.integers(1, d))
             S = sorted(int(x) for x in rng.choice(d, size=size, replace=False))
@@ -131,14 +136,17 @@ def l3_mass_per_kernel(chk, ctx, rng, n):
         phi = gen.density(rng, [pts] * d)
         nus, ms, gammas, hs, th, fr, nm = random_model(rng, d, g_max=8)
         varying = bool(it % 2) or d > 3
+        delj = bool((it // 10) % 2)
         kw = kwargs_for(d, nus, ms, gammas, hs, th, fr, nm)
         if varying:
             kw['theta0'] = (lambda t, v=th: v)
         dts = [I._compute_dt(np.diff(xx), nus[i], [ms[(i, j)] for j in range(d) if j != i] or [0], gammas[i], hs[i]) for i in range(d)]
         T = min(dts) * float(rng.uniform(1.2, 2.8))
-        key = 'line-mass:%dD:varying=%s' % (d, varying)
+        key = 'line-mass:%dD:varying=%s:delj=%s' % (d, varying, delj)
         chk.l3((key, tuple(fr), tuple(nm)))
-        inp = dict(d=d, pts=pts, nus=nus, ms=str(ms), gammas=gammas, hs=hs, theta0=th, frozen=fr, nomut=nm, T=T, varying=varying)
+        inp = dict(d=d, pts=pts, nus=nus, ms=str(ms), gammas=gammas, hs=hs, theta0=th, frozen=fr, nomut=nm, T=T, varying=varying, use_delj_trick=delj)
+        old_delj = I.use_delj_trick
+        I.use_delj_trick = delj
         injected = []
         names = {1: '_inject_mutations_1D', 2: '_inject_mutations_2D', 3: '_inject_mutations_3D', 4: '_inject_mutations_4D', 5: '_inject_mutations_5D'}
         real_inj = getattr(I, names[d])
@@ -155,6 +163,7 @@ def l3_mass_per_kernel(chk, ctx, rng, n):
             chk.fail(key + ':raises:' + type(e).__name__, 'integrator raises %r' % (e,), inp); continue
         finally:
             setattr(I, names[d], real_inj)
+            I.use_delj_trick = old_delj
         bad = False
         for (name, pin, args, kwc, out) in rec.calls:
             if name == 'tridiag':
@@ -206,11 +215,16 @@ def l3_reject(chk, ctx, rng, n):
         pairs = [(i, j) for i in range(d) for j in range(d) if i != j]
         for k in range(d):
             for (i, j) in pairs:
-                for varying in (False, True):
+                for varying in (False, True, 'm(t)', 'm(t), zero at the start', 'm(t), switches on later'):
                     fr = [False] * d; fr[k] = True
                     ms = {(i, j): 0.7}
                     kw = kwargs_for(d, [1.0] * d, ms, [0.0] * d, [0.5] * d, 1.0, fr, None)
-                    if varying: kw['theta0'] = (lambda t: 1.0)
+                    if varying is True: kw['theta0'] = (lambda t: 1.0)
+                    elif varying:
+                        # a time-dependent rate: non-zero throughout / exactly 0 at initial_t / 0 until half-way
+                        f = {'m(t)': (lambda t: 0.7 + t), 'm(t), zero at the start': (lambda t: 3e5 * t),
+                             'm(t), switches on later': (lambda t: 0.0 if t < 5e-7 else 0.7)}[varying]
+                        kw['m%d%d' % (i + 1, j + 1)] = f
                     should = (k in (i, j))
                     key = 'frozen-mig:%dD:frozen%d:m%d%d:varying=%s' % (d, k + 1, i + 1, j + 1, varying)
                     chk.l3(('frozen-mig', d, k, i, j, varying))
@@ -230,9 +244,9 @@ def run(chk, ctx):
     chk.rule = ('L3: frozen marginals (2-5 pops, random frozen subsets, const and time-varying), isolated marginals of random subsets (shared time steps), '
                 'per-kernel line-mass bookkeeping through recorded kernel calls, injection support/amount, exhaustive frozen x migration-rate rejection table; '
                 'K: full sweeps with flags vs the Lean model. non-trivial = distinct (clause, d, subset/flags, varying)')
-    chk.unproved = ['isolated marginals: proved are the kernel-sweep theorems for axes inside and outside S (any dimension, abstract index types), the injection identity, the '
-                    'composition over sweeps/steps for any preserved invariant, and the fully instantiated case d=2, S={1}; the multi-index plumbing that instantiates the invariant '
-                    'for every (d, S) with d=3..5 is not done - those cases are covered by the sweep-level theorems plus the numerical L3 check',
+    chk.unproved = ['isolated marginals: proved for any d <= 5 and any subset S on a common grid (C04_isolated_marginal_general_*); the populations outside S keep their pivot '
+                    'condition as a hypothesis (discharged for neutral, migration-free populations and under the Peclet-type condition of C02_pivots_peclet), and different grids per axis '
+                    'are covered only by the sweep-level theorems plus the numerical L3 check',
                     'round-off: identities are exact in the model, checked at 1e-9..1e-10 on the float implementation',
                     'C04 theorems are stated on the functional form (stepFam/stepAxisFn); that the tabulated arrays equal it on every valid index is proved in Props/C03 (C03_tabulated_*)']
     from . import c03
